@@ -1,8 +1,12 @@
 /-
   C11 specification (core Lean, executable).
 
-  A *well-formed TLV block* is  T ++ L ++ V  with T and L in the shortest TLV-number form (the NDN
-  packet format requires the shortest form), |V| = L.  The protocol constant the property names —
+  A *well-formed TLV block* is  T ++ L ++ V  with |V| = L, where T and L are TLV numbers in ANY of
+  the forms the readers accept (first byte <= 0xfc, or 0xfd / 0xfe / 0xff followed by 2 / 4 / 8 bytes):
+  the property quantifies over "1/3/5-byte length forms" of blocks of at most 8800 bytes, and a 5-byte
+  length form of such a block is never the shortest one — so the shortest form is NOT required here
+  (it was until round 13; `ShortestForm` below is the old definition, a special case:
+  `wellFormed_of_shortest`).  The protocol constant the property names —
   maximum packet size 8800 — is hard-wired HERE; the model takes `MaxNDNPacketSize` from the
   regenerated `Gen/C11Consts.lean`, so changing the constant in the source falsifies a theorem.
 
@@ -16,18 +20,78 @@ namespace Ndn.C11
 /-- the protocol's maximum packet size (property text: "sizes 2..8800") -/
 def specMaxPkt : Nat := 8800
 
-/-- `b` is T ++ L ++ V in shortest form with |V| = L and a 64-bit type number -/
+/-- `b` is T ++ L ++ V with |V| = L; T and L in any accepted form (`decTL` = `ReadTLNum`) -/
 def WellFormedTlv (b : Bytes) : Prop :=
+  ∃ (typ len : Nat) (r1 v : Bytes), decTL b = some (typ, r1) ∧ decTL r1 = some (len, v) ∧ v.length = len
+
+/-- the narrower notion used until round 13: T and L in the shortest form, a 64-bit type number -/
+def ShortestForm (b : Bytes) : Prop :=
   ∃ (typ : Nat) (v : Bytes), typ < 2 ^ 64 ∧ b = encTL typ ++ encTL v.length ++ v
 
 /-- executable recogniser used by the driver and the non-vacuity examples -/
 def isWellFormedTlv (b : Bytes) : Bool :=
   match decTL b with
   | none => false
-  | some (typ, r1) =>
+  | some (_, r1) =>
     match decTL r1 with
     | none => false
-    | some (len, v) => v.length == len && b == encTL typ ++ encTL len ++ v
+    | some (len, v) => v.length == len
+
+theorem isWellFormedTlv_iff (b : Bytes) : isWellFormedTlv b = true ↔ WellFormedTlv b := by
+  unfold isWellFormedTlv WellFormedTlv
+  constructor
+  · intro h
+    split at h
+    · simp at h
+    · rename_i typ r1 h1
+      split at h
+      · simp at h
+      · rename_i len v h2
+        exact ⟨typ, len, r1, v, h1, h2, by simpa using h⟩
+  · rintro ⟨typ, len, r1, v, h1, h2, h3⟩
+    simp [h1, h2, h3]
+
+instance (b : Bytes) : Decidable (WellFormedTlv b) :=
+  decidable_of_iff _ (isWellFormedTlv_iff b)
+
+/-- every shortest-form block (of a length a 64-bit number can express) is well-formed -/
+theorem wellFormed_of_shortest {b : Bytes} (h : ShortestForm b) (hl : b.length < 2 ^ 64) :
+    WellFormedTlv b := by
+  obtain ⟨typ, v, htyp, rfl⟩ := h
+  have hv : v.length < 2 ^ 64 := by simp at hl; omega
+  refine ⟨typ, v.length, encTL v.length ++ v, v, ?_, decTL_encTL _ hv _, rfl⟩
+  rw [List.append_assoc]; exact decTL_encTL typ htyp _
+
+/-- a TLV number written in the form that takes `form` bytes (1, 3, 5 or 9) -/
+def encTLForm (form x : Nat) : Bytes :=
+  if form = 1 then [x] else if form = 3 then 0xfd :: be 2 x else if form = 5 then 0xfe :: be 4 x
+  else 0xff :: be 8 x
+
+/-- the value fits the form (the one-byte form holds 0..0xfc) -/
+def formFits (form x : Nat) : Prop :=
+  (form = 1 ∧ x ≤ 0xfc) ∨ (form = 3 ∧ x < 2 ^ 16) ∨ (form = 5 ∧ x < 2 ^ 32) ∨ (form = 9 ∧ x < 2 ^ 64)
+
+instance (form x : Nat) : Decidable (formFits form x) := by unfold formFits; exact inferInstance
+
+/-- the readers accept every form, shortest or not -/
+theorem decTL_encTLForm (form x : Nat) (h : formFits form x) (rest : Bytes) :
+    decTL (encTLForm form x ++ rest) = some (x, rest) := by
+  unfold formFits at h
+  rcases h with ⟨rfl, hx⟩ | ⟨rfl, hx⟩ | ⟨rfl, hx⟩ | ⟨rfl, hx⟩
+  · simp [encTLForm, decTL, hx]
+  · have : beDec (be 2 x) = x := beDec_be 2 x (by omega)
+    simp [encTLForm, decTL, tlExtra, this]
+  · have : beDec (be 4 x) = x := beDec_be 4 x (by omega)
+    simp [encTLForm, decTL, tlExtra, this]
+  · have : beDec (be 8 x) = x := beDec_be 8 x (by omega)
+    simp [encTLForm, decTL, tlExtra, this]
+
+/-- T and L written in ANY fitting form (in particular L in the 5-byte form for a block of at most
+    8800 bytes, which the quantifier of C11 names) make a well-formed block -/
+theorem wellFormed_of_forms (ft fl typ : Nat) (v : Bytes) (ht : formFits ft typ)
+    (hl : formFits fl v.length) : WellFormedTlv (encTLForm ft typ ++ encTLForm fl v.length ++ v) := by
+  refine ⟨typ, v.length, encTLForm fl v.length ++ v, v, ?_, decTL_encTLForm _ _ hl _, rfl⟩
+  rw [List.append_assoc]; exact decTL_encTLForm _ _ ht _
 
 /-- the admissible inputs of C11: well-formed blocks no larger than the maximum packet size -/
 def Admissible (blocks : List Bytes) : Prop :=
